@@ -611,9 +611,9 @@ impl Check for SwCheck {
     }
     fn technique(&self) -> &'static str {
         match self.mode {
-            SMode::Totality => "panic / stack-overflow / CPU-budget monitor over the full query sweep on typed-through workspace states",
+            SMode::Totality => "panic / stack-overflow / CPU-budget monitor over the full query sweep on typed-through workspace states; CPU-time growth monitor under nesting",
             SMode::Coherence => "invariant monitor relating go-to-definition and find-references answers to the identifier tokens of a fresh parse",
-            SMode::Ranges => "invariant monitor on every range of every query result against the current file texts and the workspace key set",
+            SMode::Ranges => "invariant monitor on every range of every query result against the current file texts and the workspace key set, at the ide level and on the JSON-RPC wire",
         }
     }
 }
